@@ -21,6 +21,11 @@ def _task_name():
     return t.get_name() if t is not None else "reader"
 
 
+class TBytes(bytes):
+    """bytes with a trace kind attached (what the chunk means to the send protocol)"""
+    tk = None
+
+
 class Gateway:
     """Common part: pending/arrived report queues, write log, presence."""
 
@@ -93,10 +98,13 @@ class Gateway:
             return tuple(self.outcomes[k % len(self.outcomes)])
         return ("val", (17 * k + 3) % 254)
 
-    def emit(self, report):
+    def emit(self, report, tk=None):
+        """tk: kind of the item for event traces (conf / back / err; None = not part of the send protocol)"""
         lat = self.latencies.pop(0) if self.latencies else self.latency
         self.reports.append([round(self.loop.time() + lat, 6), list(report)])
-        self.pending.append((self.loop.time() + lat, bytes(report)))
+        chunk = TBytes(report)
+        chunk.tk = tk
+        self.pending.append((self.loop.time() + lat, chunk))
 
     def fire(self, kind, n):
         for t in list(self.triggers):
@@ -351,11 +359,19 @@ class SerialGateway(Gateway):
         if self.arrived:
             self.nreports_delivered += 1
             chunk = self.arrived.popleft()
+            if getattr(self, "elog", None) and getattr(chunk, "tk", None):
+                self.elog({"ev": "deliver", "kind": chunk.tk})
             self.fire("after_report", self.nreports_delivered)
             self.protocol.data_received(chunk)
 
     def readable(self):
         return self.fd is not None and bool(self.arrived)
+
+    def log_dali_write(self, fb, nbits, outcome, silent):
+        if getattr(self, "elog", None):
+            f = int.from_bytes(bytes(fb), "big")
+            self.elog({"ev": "write", "c": self.writes[-1]["task"], "kind": "edt" if (nbits == 16 and f >> 8 == 0xC1) else "cmd",
+                       "outcome": outcome[0], "value": outcome[1], "silent": 1 if silent else 0})
 
 
 def luba_frame(cmd, payload):
@@ -385,15 +401,16 @@ class GwLuba(SerialGateway):
             self.cmdlog.append({"ix": k + 1, "task": self.writes[-1]["task"], "frame": int.from_bytes(bytes(fb), "big"),
                                 "bits": nbits, "twice": 1 if twice else 0, "outcome": list(outcome), "seq": tx_id,
                                 "write": len(self.writes)})
+            self.log_dali_write(fb, nbits, outcome, self.sc.get("silent_confirm") == k + 1)
             if self.sc.get("silent_confirm") == k + 1:
                 return
             self.emit(luba_frame(0x33, [tx_id, 0]))
             for _ in range(2 if twice else 1):
-                self.emit(luba_frame(0x31, [0, 0, 0, 0x00 | nbits, tx_id] + fb))      # event type 0: frame sent
+                self.emit(luba_frame(0x31, [0, 0, 0, 0x00 | nbits, tx_id] + fb), "conf")   # event type 0: frame sent
             if outcome[0] == "val":
-                self.emit(luba_frame(0x31, [0, 0, 0, 0x80 | 8, outcome[1]]))          # event type 2: 8-bit frame received
+                self.emit(luba_frame(0x31, [0, 0, 0, 0x80 | 8, outcome[1]]), "back")       # event type 2: 8-bit frame received
             elif outcome[0] == "err":
-                self.emit(luba_frame(0x31, [0, 0, 0, 0x80 | 63, 0]))                  # framing error
+                self.emit(luba_frame(0x31, [0, 0, 0, 0x80 | 63, 0]), "err")                # framing error
 
     def observe(self, kind, value=0, bits=16):
         if kind == "fwd":
@@ -427,17 +444,18 @@ class GwSci(SerialGateway):
         self.cmdlog.append({"ix": k + 1, "task": self.writes[-1]["task"], "frame": int.from_bytes(bytes(fb), "big"),
                             "bits": 8 * nbytes, "twice": 1 if twice else 0, "outcome": list(outcome), "seq": 0,
                             "write": len(self.writes)})
+        self.log_dali_write(fb, 8 * nbytes, outcome, self.sc.get("silent_confirm") == k + 1)
         if self.sc.get("silent_confirm") == k + 1:
             return
-        self.emit(sci_block(0x10, [0, 0, 0]))            # status OK: confirmation
+        self.emit(sci_block(0x10, [0, 0, 0]), "conf")    # status OK: confirmation
         if control & 0x20:                               # echo of the transmitted frame
             d = [0, 0, 0]
             d[3 - nbytes:] = fb
             self.emit(sci_block(0x10 | mode, d))
         if outcome[0] == "val":
-            self.emit(sci_block(0x12, [0, 0, outcome[1]]))
+            self.emit(sci_block(0x12, [0, 0, outcome[1]]), "back")
         elif outcome[0] == "err":
-            self.emit(sci_block(0x17, [0, 0, 3]))
+            self.emit(sci_block(0x17, [0, 0, 3]), "err")
 
     def observe(self, kind, value=0, bits=16):
         if kind == "fwd":
